@@ -103,6 +103,8 @@ package banderwagon
 //@ requires forall k int :: 0 <= k && k < len(elements) ==> obj(elements[k]) >= 1
 //@ requires forall k int :: 0 <= k && k < len(result) ==> obj(result[k]) >= 1
 //@ ensures err != nil <==> len(result) != len(elements)
+// the inputs are only read: no pre-existing point (Fp) cell changes, whatever the aliasing among the pointers
+//@ ensures @C11 forall o int, k int :: 1 <= o && allocated(o) ==> heapFp()[o][k] == old(heapFp())[o][k]
 //@ modifies *
 //@ loop 0 invariant 0 <= i && i <= len(elements) && len(ys) == len(elements) && fresh(ys)
 //@ loop 0 invariant forall k int :: 0 <= k && k < len(elements) ==> obj(elements[k]) >= 1
@@ -119,15 +121,23 @@ package banderwagon
 
 //@ func ElementsToBytes
 //@ props C07
-//@ prelude field curve bytesint
-//@ requires forall k int :: 0 <= k && k < len(elements) ==> obj(elements[k]) >= 1
+//@ prelude field curve bytesint batchspec
+//@ let HP = heapFp()
+//@ let EL = row(elements)
+//@ let Eo = off(elements)
+//@ requires forall k int :: 0 <= k && k < len(elements) ==> obj(elements[k]) >= 1 && allocated(elements[k])
 //@ ensures fresh(result) && len(result) == len(elements)
-// (value clause result[k] == Bytes(*elements[k]) not discharged: strided byte-array invariant, see DESIGN)
+//@ ensures @C07 benc(row(result), HP, EL, Eo, len(elements))
 //@ loop 0 invariant 0 <= i && i <= len(elements) && len(zs) == len(elements) && fresh(zs)
 //@ loop 0 invariant forall k int :: 0 <= k && k < i ==> zs[k] == elements[k].inner.Z
 //@ loop 1 invariant 0 <= i && i <= len(elements) && len(zInvs) == len(elements) && fresh(zInvs) && len(serialised_points) == len(elements) && fresh(serialised_points) && obj(serialised_points) != obj(zInvs)
 //@ loop 1 invariant len(zs) == len(elements) && (forall k int :: 0 <= k && k < len(elements) ==> zs[k] == elements[k].inner.Z)
 //@ loop 1 invariant forall k int :: 0 <= k && k < len(elements) ==> zInvs[k] == fp_inv(zs[k])
+//@ loop 1 invariant benc(row(serialised_points), HP, EL, Eo, i)
+//@ at loopbody 1: ghost SPp := row(serialised_points)
+//@ at store 1: assert@spframe forall j int :: 0 <= j && j < 32*i ==> row(serialised_points)[j] == SPp[j]
+//@ at store 1: assert@prefix benc(row(serialised_points), HP, EL, Eo, i)
+//@ at store 1: assert@chunk fpbytesAt(row(serialised_points), 32*i, 32, encxb(HP[EL[Eo + 2*i]][EL[Eo + 2*i + 1]], HP[EL[Eo + 2*i]][EL[Eo + 2*i + 1] + 1], HP[EL[Eo + 2*i]][EL[Eo + 2*i + 1] + 2]))
 
 // ---- precomputed-table scalar multiplication (C05): signed-window recoding against the table invariant.
 // S (ghost) is the sum of the signed digits consumed so far times their weights; the invariant is
